@@ -161,4 +161,17 @@ CHECKS = {
   'note': TB,
   'technique': 'Coq parametric simulation theorem (stream scanner = buffer scanner under any chunking / failing reader) + translator pattern rules + extracted instance + exhaustive-cut differential harness',
  },
+ 'C01': {
+  'text': ("Proof (Coq): the interpreter's emission discipline (vm/util.go helper algebra: value text + comma, closers overwrite the last comma, appendStructEndSkipLast "
+           "after omitted members, final trim in encode.go) writes, for EVERY value of any nesting with any subset of members omitted and any buffer prefix, exactly the "
+           "compact text of the token sequence the value denotes; extracted and compared with Marshal on abstract values realised as Go structs/slices with omitempty "
+           "members. Observed: types generated from all supported kinds (all int/uint/float widths, bool, string, []byte, Number, RawMessage, time.Time, slices, arrays, "
+           "maps with string/int/TextMarshaler keys, pointers to depth 3, interfaces, structs with every tag combination, embedded value/pointer structs with conflicts, "
+           "recursive types, value/pointer-receiver marshalers) x boundary and random values with nil at every nilable position x reached directly / through a pointer / "
+           "through interface{} x Marshal, MarshalIndent, Encoder with escapeHTML on/off and indent, compared with encoding/json up to the tolerated token spellings; a "
+           "crash of the encoder is attributed to the case being run. Ten recorded findings with frozen syntactic classes (see KNOWN_FINDINGS.txt); four of them crash "
+           "the process and are excluded from generation and probed by witnesses in child processes. Partial: the compile step from Go types to opcodes is not modelled."),
+  'note': TB,
+  'technique': 'Coq emission-discipline theorem (enc = compact text of tokens) with extracted-model correspondence + generated type/value differential against encoding/json',
+ },
 }
